@@ -10,7 +10,7 @@ vars == <<tid, i, st, verdict>>
 Tr == Traces[tid]
 Fail(c, k) == c \o "@" \o ToString(k)
 
-UnitsOf(cfg) == IF cfg.kind = "sum" /\ cfg.pt THEN "mm" ELSE "mm / d"
+UnitsOf(cfg) == IF cfg.pay = "temp" THEN "°C" ELSE IF cfg.kind = "sum" /\ cfg.pt THEN "mm" ELSE "mm / d"
 
 SnapVerdict(s2, e, k) ==
   IF e.ret # [j \in 1..Len(s2.lab) |-> s2.lab[j].t] THEN Fail("buffer-retained", k)
